@@ -244,6 +244,8 @@ func FamForeign(seed int64) WireRecord {
 	send(908, `{"call":"c8","function":"EchoStr","args":[908,""]}`, "empty string result")
 	send(909, `{"call":"c9","function":"Notify0","args":[909]}`, "function without any return value")
 	send(910, `{"call":"c10","function":"Greet","args":[910,"x"]}`, "function with a value and no error")
+	send(921, `{"call":"c21","function":"Svc.Hello","args":[921]}`, "nested service held in an interface-typed field")
+	send(922, `{"call":"c22","function":"Kv.Size","args":[922]}`, "nested service of a named map type")
 	cancel()
 	reqIn.Close(errors.New("closed"))
 	resIn.Close(errors.New("closed"))
